@@ -34,7 +34,7 @@ SPEC = {
   'rule': (
     'optimizer cases: random nested param trees / NNX module graphs (shared Variables, several Variable types, tags) '
     'with small integer leaves, an optax transformation drawn from stateless/stateful/chained/scheduled/adaptive families, '
-    '1-4 gradient steps, ~38% of the cases in mixed precision (bfloat16/float16 params with some float32 leaves, gradients of the same or wider dtype, transformations with float32 accumulators; compared bit for bit incl. dtype with the by-hand loop), a random `wrt` filter (NNX), optional OWG form and kwargs (Linen); a case is non-trivial when at '
+    '1-4 gradient steps, ~38% of the cases in mixed precision (bfloat16/float16 params with some float32 leaves, gradients of the same or wider dtype, transformations with float32 accumulators; compared bit for bit incl. dtype with the by-hand loop), start values of the step counter near the top of int32/uint32/int8/uint8/int16 in ~38% of the cases, a random `wrt` filter (NNX), optional OWG form and kwargs (Linen); a case is non-trivial when at '
     'least one step is applied to at least one leaf. metric cases: integer/dyadic value streams of length 0-40 x two random '
     'partitions into scalar/array batches; non-trivial when the stream is split into >= 2 update calls. distinct = distinct '
     'canonical JSON of the case.'
@@ -48,7 +48,7 @@ SPEC = {
   ],
   'assumptions': [
     'optax is abstract in the theorems (every Tx); the model is run with optax given as the table of calls made by the hand-written loop',
-    'step counters are natural numbers (no uint32 wrap-around)',
+    'step counters: a Python int is unbounded, a w-bit integer array is incremented modulo 2^w (theorem step_increments_mod; the model holds the bit pattern); the oracle is NumPy same-dtype + 1',
     'Welford numerics: float32 accumulation error is not bounded by a theorem; compared with tolerance 1e-4 relative + 1e-5 absolute; on dyadic power-of-two chains count, mean and m2 exactly and std/sem within 2 float32 ULPs',
     'an empty array poisons Welford with NaN (excluded point, exhibited by theorem welford_empty_batch_poisons); Accuracy requires equal leading sizes and a non-empty class axis',
     'TrainState OWG mode: params has exactly the keys params and OWG (any other top-level key is dropped by the code: observation, outside the domain)',
@@ -1029,6 +1029,70 @@ def hand_loop(tx, params, grads_list):
 
 
 # ------------------------------------------------------------------------------------------------
+# step counters: "increments the step counter by one" = + 1 in the counter's own arithmetic
+# ------------------------------------------------------------------------------------------------
+
+STEP_DTYPES = {'int8': np.int8, 'uint8': np.uint8, 'int16': np.int16, 'int32': np.int32, 'uint32': np.uint32}
+
+
+def step_key(step):
+  """(dtype name or 'pyint', exact integer value) of a step counter"""
+  if isinstance(step, int) and not isinstance(step, bool):
+    return ('pyint', int(step))
+  a = np.asarray(step)
+  return (str(a.dtype), int(a))
+
+
+def step_succ(key):
+  """old + 1 computed in the counter's own dtype (NumPy same-dtype addition, which wraps); a Python int is unbounded"""
+  dt, v = key
+  if dt == 'pyint':
+    return (dt, v + 1)
+  with np.errstate(over='ignore'):
+    return (dt, int(np.add(np.array(v, dtype=dt), np.array(1, dtype=dt), dtype=dt)))
+
+
+def step_model(key):
+  """-> (width or None, bit pattern) as the Lean model represents the counter"""
+  dt, v = key
+  if dt == 'pyint':
+    return None, v
+  w = np.dtype(dt).itemsize * 8
+  return w, v % (2**w)
+
+
+def pick_step(prng, kind):
+  """start value of the step counter: mostly the default, otherwise a value from
+  {0, small, 12345, max-2, max-1, max} of an int32 / int8 / uint8 / int16 / uint32 counter"""
+  if prng.random() < 0.62:
+    return None
+  dts = {'linen': ['int32', 'int32', 'int8', 'uint8', 'int16', 'pyint'], 'nts': ['int32', 'int32', 'int32', 'int8', 'uint8', 'int16', 'uint32'],
+         'opt': ['uint32', 'uint32', 'uint32', 'int8', 'int32']}[kind]
+  dt = prng.choice(dts)
+  if dt == 'pyint':
+    return ('pyint', prng.choice([2**31 - 2, 2**31 - 1, 2**32 - 1, 12345]))
+  mx = int(np.iinfo(dt).max)
+  v = prng.choice([0, prng.randrange(1, 6), min(12345, mx // 2), mx - 2, mx - 2, mx - 1, mx - 1, mx, mx])
+  return (dt, v)
+
+
+def _step_bucket(key):
+  if not key:
+    return 'default'
+  dt, v = key
+  if dt == 'pyint':
+    return 'pyint-large'
+  return f'{dt}:' + ('near-max' if v >= int(np.iinfo(dt).max) - 2 else 'low')
+
+
+def step_value(key, python_int_for_int32=False):
+  dt, v = key
+  if dt == 'pyint' or (python_int_for_int32 and dt == 'int32'):
+    return v
+  return jnp.asarray(np.array(v, dtype=dt))
+
+
+# ------------------------------------------------------------------------------------------------
 # flax.training.train_state.TrainState
 # ------------------------------------------------------------------------------------------------
 
@@ -1109,7 +1173,7 @@ def run_linen_case(ctx, c):
   if c['frozen']:
     params = freeze(params)
     grads = [freeze(g) for g in grads]
-  canon = {'kind': 'linen-trainstate', 'prec': c.get('prec'), 'cseed': c.get('cseed'), 'force': c.get('force'), 'tx': c['tx'], 'owg': c['owg'], 'frozen': c['frozen'], 'sub': c['sub'],
+  canon = {'kind': 'linen-trainstate', 'step_start': c.get('step_start'), 'prec': c.get('prec'), 'cseed': c.get('cseed'), 'force': c.get('force'), 'tx': c['tx'], 'owg': c['owg'], 'frozen': c['frozen'], 'sub': c['sub'],
            'params': pt_json(params), 'grads': [pt_json(g) for g in grads], 'kwargs': c['kwargs'], 'malformed': c['malformed']}
   popt = params['params'] if c['owg'] else params
   gopts = []
@@ -1135,15 +1199,18 @@ def run_linen_case(ctx, c):
   init_state, trace, herr = hand_loop(c['mk'](), popt, usable[:n_ok])
   if int(st.step) != 0 or leaves_bits(st.opt_state) != leaves_bits(init_state) or pt_canon(st.params) != pt_canon(params):
     viol.append(('trainstate-create', 'create(): step != 0, params changed or opt_state != tx.init(params to optimise)'))
+  if c.get('step_start'):
+    st = st.replace(step=step_value(c['step_start']))  # a resumed run: the caller puts the counter there
+  step0_key = step_key(st.step)
   obs = {'err': None, 'at': None}
   cur = st
   for k, g in enumerate(grads):
     kw = dict(c['kwargs'][k])
     if 'apply_fn' in kw:
       kw['apply_fn'] = FNS[kw['apply_fn']]
-    before = (int(cur.step), pt_canon(cur.params), leaves_bits(cur.opt_state), ts_fields(cur))
+    before = (step_key(cur.step), pt_canon(cur.params), leaves_bits(cur.opt_state), ts_fields(cur))
     r = call(cur.apply_gradients, grads=g, **kw)
-    after = (int(cur.step), pt_canon(cur.params), leaves_bits(cur.opt_state), ts_fields(cur))
+    after = (step_key(cur.step), pt_canon(cur.params), leaves_bits(cur.opt_state), ts_fields(cur))
     if before != after:
       viol.append(('trainstate-old-instance-mutated', f'apply_gradients changed the instance it was called on (step {k})'))
     if r[0] != 'ok':
@@ -1160,8 +1227,8 @@ def run_linen_case(ctx, c):
       viol.append(('trainstate-same-instance', f'apply_gradients returned the same instance (step {k})'))
     if k < len(trace) and 'updates' in trace[k]:
       h = trace[k]
-      if int(new.step) != before[0] + 1:
-        viol.append(('trainstate-step', f'step went from {before[0]} to {int(new.step)} in one apply_gradients call'))
+      if step_key(new.step) != step_succ(before[0]):
+        viol.append(('trainstate-step', f'step went from {before[0]} to {step_key(new.step)} in one apply_gradients call; + 1 in the counter\'s own arithmetic is {step_succ(before[0])}'))
       if c['owg']:
         keys = set(new.params.keys())
         if keys != {'params', OWG}:
@@ -1193,7 +1260,7 @@ def run_linen_case(ctx, c):
   # expected exception: by-hand raises at the same step
   if obs['err'] is None and herr is not None:
     viol.append(('trainstate-missed-exception', f'the by-hand loop raises {herr} but apply_gradients did not'))
-  obs.update(step=int(cur.step), params=pt_json(cur.params), opt_state=leaves_json(cur.opt_state), fields=ts_fields(cur))
+  obs.update(step=step_model(step_key(cur.step))[1], params=pt_json(cur.params), opt_state=leaves_json(cur.opt_state), fields=ts_fields(cur))
   # model request (only when every p + u was exact)
   exact = all(additions_exact(h['params'], h['updates']) for h in trace if 'updates' in h)
   req = None
@@ -1207,7 +1274,7 @@ def run_linen_case(ctx, c):
         e['raise'] = 1
       table.append(e)
     req = ('trainstate_run', [{
-      'owg': OWG, 'params': pt_json(params), 'fields': ts_fields(st),
+      'width': step_model(step0_key)[0], 'step0': step_model(step0_key)[1], 'owg': OWG, 'params': pt_json(params), 'fields': ts_fields(st),
       'init_table': [{'params': pt_json(popt), 'state': leaves_json(init_state)}], 'table': table,
       'steps': [{'grads': pt_json(g), 'kwargs': [[n, v] for n, v in c['kwargs'][k].items()]} for k, g in enumerate(grads)],
     }])
@@ -1229,6 +1296,7 @@ def check_linen(ctx, drv, cases):
     ctx.count('linen_form', ('owg' if c['owg'] else 'plain') + ('+frozen' if c['frozen'] else '') + ('+subclass' if c['sub'] else ''))
     ctx.count('linen_malformed', c['malformed'])
     ctx.count('linen_precision', c.get('prec') or 'float32')
+    ctx.count('linen_step_start', _step_bucket(c.get('step_start')))
     ctx.count('linen_model_compared', req is not None)
     for key, what in viol:
       ctx.violation(key, f'{what} ({c["tx"]}, owg={c["owg"]})', canon)
@@ -1472,7 +1540,7 @@ def run_optimizer_case(ctx, c):
     grads = [jax.tree.map(lambda x: gen_array(grng, tuple(np.shape(x))), params0) for _ in range(c['steps'])]
   if c['malformed'] == 'grads-missing-leaf':
     grads[-1] = drop_state_leaf(grads[-1])
-  canon = {'kind': 'nnx-optimizer', 'prec': c.get('prec'), 'cseed': c.get('cseed'), 'force': c.get('force'), 'tx': c['tx'], 'wrt': c['wrt'], 'sugar': c['sugar'], 'model': nstate_json(nnx.state(model)),
+  canon = {'kind': 'nnx-optimizer', 'step_start': c.get('step_start'), 'prec': c.get('prec'), 'cseed': c.get('cseed'), 'force': c.get('force'), 'tx': c['tx'], 'wrt': c['wrt'], 'sugar': c['sugar'], 'model': nstate_json(nnx.state(model)),
            'aliases': reg['shared'], 'grads': [nstate_json(g) for g in grads], 'malformed': c['malformed']}
   viol = []
   init_state, trace, herr = hand_loop(c['mk'](), params0, grads)
@@ -1484,11 +1552,14 @@ def run_optimizer_case(ctx, c):
   opt = r[1]
   if int(np.asarray(opt.step.value)) != 0 or opt_state_canon_impl(opt) != optstate_canon(init_state) or opt.model is not model:
     viol.append(('optimizer-init', 'Optimizer.__init__: step != 0, opt_state != wrap(tx.init(nnx.state(model, wrt))) or model not held by reference'))
+  if c.get('step_start'):
+    opt.step.value = step_value(c['step_start'])  # a resumed run
+  step0_key = step_key(opt.step.value)
   obs = {'err': None, 'at': None}
   for k, g in enumerate(grads):
     before_vars = [var_snapshot(v) for _, v in objs]
     before_opt = opt_state_canon_impl(opt)
-    before_step = int(np.asarray(opt.step.value))
+    before_step = step_key(opt.step.value)
     opt_objs = [id(L) for L in opt_leaves(opt)]
     r = call(opt.update, g)
     after_vars = [var_snapshot(v) for _, v in objs]
@@ -1513,7 +1584,7 @@ def run_optimizer_case(ctx, c):
       obs['err'], obs['at'] = r[1], k
       if h is not None and 'raise' in h:
         # atomicity: the by-hand step raised, so nothing may have changed
-        if after_vars != before_vars or opt_state_canon_impl(opt) != before_opt or int(np.asarray(opt.step.value)) != before_step:
+        if after_vars != before_vars or opt_state_canon_impl(opt) != before_opt or step_key(opt.step.value) != before_step:
           viol.append(('optimizer-failed-update-mutates', f'step {k}: update raised {r[1]} (as the by-hand step does) but step/model/opt_state were already changed'))
       elif c['malformed'] != 'kind-changing-tx':
         viol.append(('optimizer-unexpected-exception', f'step {k}: update raised {r[1]} although the by-hand step succeeds (wrt={c["wrt"]})'))
@@ -1521,8 +1592,8 @@ def run_optimizer_case(ctx, c):
     if h is None or 'raise' in h:
       viol.append(('optimizer-missed-exception', f'step {k}: the by-hand step raises {herr} but update did not'))
       break
-    if int(np.asarray(opt.step.value)) != before_step + 1:
-      viol.append(('optimizer-step', f'step counter went from {before_step} to {int(np.asarray(opt.step.value))} in one update'))
+    if step_key(opt.step.value) != step_succ(before_step):
+      viol.append(('optimizer-step', f'step counter went from {before_step} to {step_key(opt.step.value)} in one update; + 1 in the counter\'s own arithmetic is {step_succ(before_step)}'))
     if nstate_canon(nnx.state(model, flt)) != nstate_canon(h['new_params']):
       viol.append(('optimizer-params-differ-from-hand-loop', f'step {k}: nnx.state(model, wrt) != optax.apply_updates(params, tx.update(grads, opt_state, params)[0]) computed by hand'))
     if opt_state_canon_impl(opt) != optstate_canon(h['out_state']):
@@ -1534,7 +1605,7 @@ def run_optimizer_case(ctx, c):
       if nstate_canon(sg) != nstate_canon(h['grads']) or optstate_canon(ss) != optstate_canon(h['in_state']) or sp is None or nstate_canon(sp) != nstate_canon(h['params']):
         viol.append(('optimizer-tx-inputs', f'step {k}: tx.update was not given (grads, unwrapped opt_state, nnx.state(model, wrt)) of the by-hand loop'))
   osj, kinds = opt_state_json_impl(opt)
-  obs.update(step=int(np.asarray(opt.step.value)), model=nstate_json(nnx.state(model)), opt_state=osj, kinds=kinds)
+  obs.update(step=step_model(step_key(opt.step.value))[1], model=nstate_json(nnx.state(model)), opt_state=osj, kinds=kinds)
   exact = all(additions_exact(h['params'], h['updates']) for h in trace if 'updates' in h)
   req = None
   if exact:
@@ -1547,7 +1618,7 @@ def run_optimizer_case(ctx, c):
         e['raise'] = 1
       table.append(e)
     req = ('optimizer_run', [{
-      'model': canon['model'], 'wrt': c['wrt'],
+      'width': step_model(step0_key)[0], 'step0': step_model(step0_key)[1], 'model': canon['model'], 'wrt': c['wrt'],
       'init_table': [{'params': nstate_json(params0), 'state': optstate_json(init_state)}], 'table': table,
       'grads': canon['grads'],
     }])
@@ -1569,6 +1640,7 @@ def check_optimizer(ctx, drv, cases):
     ctx.count('opt_wrt_head', next(iter(c['wrt'])) if isinstance(c['wrt'], dict) else c['wrt'])
     ctx.count('opt_malformed', c['malformed'])
     ctx.count('opt_precision', c.get('prec') or 'float32')
+    ctx.count('opt_step_start', _step_bucket(c.get('step_start')))
     ctx.count('opt_model_compared', req is not None)
     for key, what in viol:
       ctx.violation(key, f'{what} ({c["tx"]})', canon)
@@ -1637,21 +1709,23 @@ def run_ntrainstate_case(ctx, c):
     grads = [jax.tree.map(lambda x: gen_array(grng, tuple(np.shape(x))), params) for _ in range(c['steps'])]
   if c['malformed'] == 'grads-missing-leaf':
     grads[-1] = drop_state_leaf(grads[-1])
-  canon = {'kind': 'nnx-trainstate', 'prec': c.get('prec'), 'cseed': c.get('cseed'), 'force': c.get('force'), 'tx': c['tx'], 'wrt': c['wrt'], 'params': nstate_json(params), 'grads': [nstate_json(g) for g in grads],
+  canon = {'kind': 'nnx-trainstate', 'step_start': c.get('step_start'), 'prec': c.get('prec'), 'cseed': c.get('cseed'), 'force': c.get('force'), 'tx': c['tx'], 'wrt': c['wrt'], 'params': nstate_json(params), 'grads': [nstate_json(g) for g in grads],
            'step0': c['step0'], 'kwargs': c['kwargs'], 'malformed': c['malformed']}
   viol = []
   init_state, trace, herr = hand_loop(c['mk'](), params, grads)
   spy = SpyTx(c['mk']())
-  r = call(NTrainState2.create, graphdef, params=params, tx=spy.tx, step=c['step0'], other=other, tag=0)
+  start = step_value(c['step_start'], python_int_for_int32=True) if c.get('step_start') else c['step0']
+  want0 = step_key(jnp.asarray(start))
+  r = call(NTrainState2.create, graphdef, params=params, tx=spy.tx, step=start, other=other, tag=0)
   if r[0] != 'ok':
     viol.append(('nnx-trainstate-create-raises', f'nnx.TrainState.create raised {r[1]}'))
     return canon, None, viol, None
   st = r[1]
-  if int(st.step) != c['step0'] or optstate_canon(st.opt_state) != optstate_canon(init_state) or nstate_canon(st.params) != nstate_canon(params):
+  if step_key(st.step) != want0 or optstate_canon(st.opt_state) != optstate_canon(init_state) or nstate_canon(st.params) != nstate_canon(params):
     viol.append(('nnx-trainstate-create', 'create(): step, params or opt_state != tx.init(params)'))
   other_canon = nstate_canon(other)
   def snap(x):
-    return (int(x.step), nstate_canon(x.params), optstate_canon(x.opt_state), int(x.tag), nstate_canon(x.other), id(x.graphdef))
+    return (step_key(x.step), nstate_canon(x.params), optstate_canon(x.opt_state), int(x.tag), nstate_canon(x.other), id(x.graphdef))
   obs = {'err': None, 'at': None}
   cur = st
   for k, g in enumerate(grads):
@@ -1672,8 +1746,8 @@ def run_ntrainstate_case(ctx, c):
     if h is None or 'raise' in h:
       viol.append(('nnx-trainstate-missed-exception', f'step {k}: the by-hand step raises {herr} but apply_gradients did not'))
       break
-    if int(new.step) != before[0] + 1:
-      viol.append(('nnx-trainstate-step', f'step went from {before[0]} to {int(new.step)} in one call'))
+    if step_key(new.step) != step_succ(before[0]):
+      viol.append(('nnx-trainstate-step', f'step went from {before[0]} to {step_key(new.step)} in one call; + 1 in the counter\'s own arithmetic is {step_succ(before[0])}'))
     if nstate_canon(new.params) != nstate_canon(h['new_params']):
       viol.append(('nnx-trainstate-params-differ-from-hand-loop', f'step {k}: params != apply_updates(params, tx.update(grads, opt_state, params)[0]) by hand'))
     if optstate_canon(new.opt_state) != optstate_canon(h['out_state']):
@@ -1690,7 +1764,7 @@ def run_ntrainstate_case(ctx, c):
     cur = new
   if obs['err'] is None and herr is not None:
     viol.append(('nnx-trainstate-missed-exception', f'the by-hand loop raises {herr} but apply_gradients did not'))
-  obs.update(step=int(cur.step), params=nstate_json(cur.params), opt_state=optstate_json(cur.opt_state), fields=[['graphdef', 1], ['tag', int(cur.tag)]])
+  obs.update(step=step_model(step_key(cur.step))[1], params=nstate_json(cur.params), opt_state=optstate_json(cur.opt_state), fields=[['graphdef', 1], ['tag', int(cur.tag)]])
   exact = all(additions_exact(h['params'], h['updates']) for h in trace if 'updates' in h)
   req = None
   if exact:
@@ -1703,7 +1777,7 @@ def run_ntrainstate_case(ctx, c):
         e['raise'] = 1
       table.append(e)
     req = ('ntrainstate_run', [{
-      'params': nstate_json(params), 'step': c['step0'], 'fields': [['graphdef', 1], ['tag', 0]],
+      'params': nstate_json(params), 'step': step_model(want0)[1], 'width': step_model(want0)[0], 'fields': [['graphdef', 1], ['tag', 0]],
       'init_table': [{'params': nstate_json(params), 'state': optstate_json(init_state)}], 'table': table,
       'steps': [{'grads': nstate_json(g), 'kwargs': [[n, v] for n, v in c['kwargs'][k].items()]} for k, g in enumerate(grads)],
     }])
@@ -1721,6 +1795,7 @@ def check_ntrainstate(ctx, drv, cases):
     ctx.count('nts_n_params', len(canon['params']))
     ctx.count('nts_malformed', c['malformed'])
     ctx.count('nts_precision', c.get('prec') or 'float32')
+    ctx.count('nts_step_start', _step_bucket(c.get('step_start')))
     ctx.count('nts_model_compared', req is not None)
     for key, what in viol:
       ctx.violation(key, f'{what} ({c["tx"]})', canon)
@@ -1777,6 +1852,8 @@ def seeded(gen, cseed, force=None):
   c['cseed'] = cseed
   c['force'] = force
   c['prec'] = None if low is None else jnp.dtype(low).name
+  kind = {'gen_linen_case': 'linen', 'gen_optimizer_case': 'opt', 'gen_ntrainstate_case': 'nts'}.get(gen.__name__)
+  c['step_start'] = pick_step(_random.Random(cseed * 2 + 7), kind) if kind else None
   return c
 
 
